@@ -13,11 +13,11 @@ conf = {
   "demo_with_change_rc": int(re.search(r"demo_with_rc=(\d+)", log).group(1)),
   "demo_without_change_rc": int(re.search(r"demo_without_rc=(\d+)", log).group(1)),
   "suite_summaries_with_change": re.findall(r"Summary.*", log),
-  "how": "in the agent's scratch worktree: cargo test -p warp-core --test <demo> with the change (must fail) and with crates/warp-core/src stashed (must pass); cargo nextest run -p warp-core with default features and with native_rule_bootstrap,trusted_runtime,host_test, demo excluded (only the known always-failing baseline test may fail)",
+  "how": "tools/confirm_seed.sh in the agent's scratch worktree: cargo test -p <crate> --test <demo> with the change (must fail) and with the patch reversed (must pass); cargo nextest run -p <crate> with default features and (warp-core) with native_rule_bootstrap,trusted_runtime,host_test, demo excluded (only the known always-failing baseline test may fail); the patch is applied to /repo with git apply --check by tools/try_mutant.sh",
 }
-out = {"breaks_property": meta.get("property"), "origin": "fresh sub-agent given only the property text and a scratch worktree",
+out = {"breaks_property": meta.get("breaks_property") or meta.get("property"), "origin": "fresh sub-agent given only the property text and a scratch worktree",
        "summary": meta.get("summary"), "needs_to_manifest": meta.get("needs_to_manifest"), "files_changed": meta.get("files_changed"),
-       "demo_command": meta.get("demo_command"), "agent_tests_run": meta.get("tests_run"),
+       "demo_command": meta.get("demo_command"), "demo_place": meta.get("demo_place"), "agent_tests_run": meta.get("agent_tests_run") or meta.get("tests_run"),
        "my_confirmation": conf, "detected_by": detected}
 json.dump(out, open(f"{dst}/meta.json", "w"), indent=1)
 print("kept", dst, conf["demo_with_change_rc"], conf["demo_without_change_rc"], conf["suite_summaries_with_change"])
